@@ -25,6 +25,7 @@ ActivePeers::add(own id, the connection handed in) and add_peer never closes a c
 "answered Ok" implies the reached peer is (or already was) in the connected set - every returning path of
 ActivePeersInner::add leaves an entry for that peer (C04.2a re-evaluated); the returned id is the key of the first
 (end-entity) certificate of that very connection (C01.7 re-evaluated).
+The connect API always carries the dial out: every return of NetworkInner::connect passes the ConnectRequest(addr, expected id) it sent and a success is the manager's reply (C03.10).
 """
 TRUSTED = ["rustls calls the configured ServerCertVerifier for every handshake", "C01's chain (identity = verified key)"]
 NOT_DECIDED = ["datagram loss during the handshake", "timing of concurrent dials", "the impostor's cryptographic inability (trusted base of C01)"]
